@@ -1,7 +1,13 @@
 package p16
 
 import (
+	"strconv"
+	"strings"
+
+	"github.com/btcsuite/btcd/btcec/v2"
+	"github.com/btcsuite/btcd/btcec/v2/schnorr"
 	"github.com/btcsuite/btcd/chainhash/v2"
+	"github.com/btcsuite/btcd/txscript/v2"
 	"verifharness/core"
 )
 
@@ -11,6 +17,96 @@ func base58CheckRaw(body []byte) string {
 	return b58enc(append(append([]byte{}, body...), ck...))
 }
 
-func execTap(op string, a []string) (string, bool) { return "", false }
+func parseLeaves(s string) []txscript.TapLeaf {
+	var out []txscript.TapLeaf
+	for _, p := range strings.Split(s, ",") {
+		f := strings.Split(p, ":")
+		out = append(out, txscript.NewTapLeaf(txscript.TapscriptLeafVersion(unhx(f[0])[0]), unhx(f[1])))
+	}
+	return out
+}
 
-func genTap(g *core.Gen) {}
+func execTap(op string, a []string) (string, bool) {
+	switch op {
+	case "tap":
+		internal, err := btcec.ParsePubKey(unhx(a[0]))
+		if err != nil {
+			return "err", true
+		}
+		leaves := parseLeaves(a[1])
+		tree := txscript.AssembleTaprootScriptTree(leaves...)
+		root := tree.RootNode.TapHash()
+		outKey := txscript.ComputeTaprootOutputKey(internal, root[:])
+		prog := schnorr.SerializePubKey(outKey)
+		var parts []string
+		for i, leaf := range leaves {
+			cb := tree.LeafMerkleProofs[i].ToControlBlock(internal)
+			cbBytes, err := cb.ToBytes()
+			if err != nil {
+				parts = append(parts, "err")
+				continue
+			}
+			res := "ok"
+			parsed, err := txscript.ParseControlBlock(cbBytes)
+			if err != nil {
+				res = "fail"
+			} else if txscript.VerifyTaprootLeafCommitment(parsed, prog, leaf.Script) != nil {
+				res = "fail"
+			}
+			parts = append(parts, hx(cbBytes)+":"+res)
+		}
+		return hx(root[:]) + " " + hx(prog) + " | " + strings.Join(parts, ","), true
+	}
+	return "", false
+}
+
+func leafStr(ver byte, script []byte) string { return hx([]byte{ver}) + ":" + hx(script) }
+
+func genTap(g *core.Gen) {
+	r := g.R
+	mk := func(n int, dup bool) string {
+		var ls []string
+		seen := map[string]bool{}
+		for len(ls) < n {
+			ver := byte(0xc0)
+			if r.Chance(1, 5) {
+				ver = byte(r.Intn(128) * 2)
+			}
+			l := 1 + r.Intn(40)
+			if r.Chance(1, 12) {
+				l = int(r.Pick(0, 252, 253, 300))
+			}
+			script := r.Bytes(l)
+			if len(ls) > 0 && r.Chance(1, 6) { // same script, other version / other script, same bytes prefix
+				prev := strings.Split(ls[r.Intn(len(ls))], ":")
+				script = unhx(prev[1])
+				ver = byte(r.Intn(128) * 2)
+			}
+			s := leafStr(ver, script)
+			if seen[s] && !dup {
+				continue
+			}
+			seen[s] = true
+			ls = append(ls, s)
+		}
+		return strings.Join(ls, ",")
+	}
+	key := func() string { return hx(pubKeys(r)[r.Intn(2)]) }
+	for n := 1; n <= 64; n++ { // every leaf count up to 64
+		for k := 0; k < g.N(1, 6); k++ {
+			g.Case("tap-"+strconv.Itoa((n+15)/16*16), n > 1, "C16 tap "+key()+" "+mk(n, false))
+		}
+	}
+	for k := 0; k < g.N(30, 400); k++ {
+		g.Case("tap-small", true, "C16 tap "+key()+" "+mk(1+r.Intn(9), false))
+	}
+	// identical leaves (same version and script) at several positions
+	for k := 0; k < g.N(40, 400); k++ {
+		n := 2 + r.Intn(12)
+		ls := strings.Split(mk(n, true), ",")
+		for d := 0; d < 1+r.Intn(3); d++ {
+			ls[r.Intn(n)] = ls[r.Intn(n)]
+		}
+		g.Case("tap-dup", true, "C16 tap "+key()+" "+strings.Join(ls, ","))
+	}
+}
